@@ -282,13 +282,27 @@ def run(ctx):
         floors = []
     lines = []
     raws = []
+    if floors and ctx.replay is None:
+        # value classes of the threshold itself: positive floors at and below machine epsilon, subnormal floors - with
+        # entries on both sides of them (a floor is a floor whatever its magnitude; "practically zero" is not zero)
+        for j, e_ in enumerate(["1e-16", "2e-16", "1e-17", "1e-300", "5e-324", "1e-12", "3e-8"] * (1 if ctx.quick() else 6)):
+            floors.append({"floor": True, "n": 2 + j % 4, "seed": ctx.rng.randrange(2 ** 31), "eps": e_, "tiny": True})
     for c in floors:
         rs = np.random.RandomState(c["seed"])
         n = c["n"]
         m = n * (n + 1) // 2
         raw = np.round(rs.uniform(-1, 1, size=m) * 16) / 16
         raw[rs.rand(m) < 0.3] *= 0.125
-        eps = float(Fraction(c["eps"]))
+        if c.get("tiny"):
+            e0 = float(c["eps"])
+            for i_ in range(m):
+                u_ = rs.rand()
+                if u_ < 0.3:
+                    raw[i_] = e0 * float(rs.choice([0.25, 0.5, 0.75])) * float(rs.choice([-1, 1]))     # strictly inside
+                elif u_ < 0.45:
+                    raw[i_] = e0 * float(rs.choice([1.0, 2.0, 16.0])) * float(rs.choice([-1, 1]))      # on / above the floor
+            ctx.count("floor_cases_with_tiny_thresholds")
+        eps = float(Fraction(c["eps"])) if not c.get("tiny") else float(c["eps"])
         model = tu.real_model([np.eye(n)], [np.zeros(n)], 1, 4, eps=eps)
         keep = raw.copy()
         out = gl._reconstruct_optimized_matrix(model, raw)
@@ -300,7 +314,7 @@ def run(ctx):
         if not ok:
             ctx.violation("impl-violation", "covariance floor: an entry in (0,eps) survived, a large entry changed, or the raw result was written",
                           c, {"site": "floor"})
-        lines.append(f"floor {frac_str(Fraction(c['eps']))} {show_list([Fraction(float(v)) for v in full.reshape(-1)], frac_str)}")
+        lines.append(f"floor {frac_str(Fraction(eps))} {show_list([Fraction(float(v)) for v in full.reshape(-1)], frac_str)}")
         raws.append((c, out))
         ctx.case(("floor", repr(c)), nontrivial=eps > 0)
     for (c, out), mo in zip(raws, ctx.driver.run(lines)):
@@ -316,7 +330,9 @@ def run(ctx):
             n = c["n"]
             A = np.round(rs.uniform(-1, 1, size=(n, n)) * 16) / 16
             A[rs.rand(n, n) < 0.3] *= 0.125
-            eps = float(Fraction(c["eps"]))
+            eps = float(Fraction(c["eps"])) if not c.get("tiny") else float(c["eps"])
+            if c.get("tiny"):
+                A = A * eps * 4.0
             for flag in (True, False):
                 try:
                     got = zse(A.copy(), eps, flag)
